@@ -13,18 +13,19 @@ QueryOK(P, sites, R, q) ==
   /\ q.panic = ""
   /\ Cardinality(got) = Len(q.calls)
   /\ got = OnPathR(P, sites, R, q.s, q.t)
-EventOK(e) ==
+\* the queries of event e that are answered wrongly, as <<s, t>>
+BadQueries(e) ==
   LET P == e.program
       sites == InternalCallSites(P)
       R == CallRel(P)
-  IN  \A i \in DOMAIN e.queries :
-        IF QueryOK(P, sites, R, e.queries[i]) THEN TRUE
-        ELSE PrintT(<<"WHY", l, e.queries[i].s, e.queries[i].t>>) /\ FALSE
+  IN  {<<e.queries[i].s, e.queries[i].t>> : i \in {x \in DOMAIN e.queries : ~QueryOK(P, sites, R, e.queries[x])}}
 
 Init == l = 1
 Next == /\ l <= Len(Rec)
         /\ l' = l + 1
-        /\ IF EventOK(Rec[l]) THEN TRUE ELSE PrintT(<<"BAD", l>>)
+        /\ LET bad == BadQueries(Rec[l]) IN
+           IF bad = {} THEN TRUE
+           ELSE PrintT(<<"WHY", l, CHOOSE q \in bad : TRUE>>) /\ PrintT(<<"BAD", l, "wrong queries", Cardinality(bad)>>)
 Spec == Init /\ [][Next]_l
 Accepted == TLCGet("stats").diameter - 1 = Len(Rec)
 Post == IF Accepted THEN TRUE ELSE PrintT(<<"UNCONSUMED", TLCGet("stats").diameter>>) /\ FALSE
